@@ -214,6 +214,11 @@ func (s *Sim) sig(task int, kind byte, obj int) {
 //go:norace
 func (s *Sim) Hash() uint64 { return s.hash }
 
+// Note records a harness event (operation start) in the trace.
+//
+//go:norace
+func (s *Sim) Note(kind string, a, b int) { s.ev(kind, a, b) }
+
 // MixResult lets the harness fold operation results into the run hash.
 //
 //go:norace
@@ -605,6 +610,7 @@ func (s *Sim) preempt(t *Task, id int) {
 	}
 	s.sig(t.ID, 'p', id)
 	t.sinceSP = 0
+	s.ev("pre", t.ID, id)
 	s.switchTo(t, others[int(c)%len(others)])
 }
 
